@@ -22,11 +22,16 @@ var (
 	DeadlineExceeded = context.DeadlineExceeded
 )
 
+//go:norace
 func Background() Context { return context.Background() }
-func TODO() Context       { return context.TODO() }
 
+//go:norace
+func TODO() Context { return context.TODO() }
+
+//go:norace
 func WithValue(parent Context, key, val any) Context { return context.WithValue(parent, key, val) }
 
+//go:norace
 func Cause(c Context) error { return context.Cause(c) }
 
 type cancelCtx struct {
@@ -44,6 +49,7 @@ type ctxKey struct{}
 
 var selfKey ctxKey
 
+//go:norace
 func (c *cancelCtx) Deadline() (time.Time, bool) {
 	if c.hasDL {
 		return c.deadline, true
@@ -51,8 +57,10 @@ func (c *cancelCtx) Deadline() (time.Time, bool) {
 	return c.parent.Deadline()
 }
 
+//go:norace
 func (c *cancelCtx) Done() <-chan struct{} { return c.done }
 
+//go:norace
 func (c *cancelCtx) Err() error {
 	if c.err != nil {
 		vrt.RaceAcq(&c.hb)
@@ -60,6 +68,7 @@ func (c *cancelCtx) Err() error {
 	return c.err
 }
 
+//go:norace
 func (c *cancelCtx) Value(key any) any {
 	if key == &selfKey {
 		return c
@@ -68,8 +77,11 @@ func (c *cancelCtx) Value(key any) any {
 }
 
 // VrtKey: the state of a context is its done channel (world key).
+//
+//go:norace
 func (c *cancelCtx) VrtKey() uint64 { return vrt.Mix(0xc7c7, vrt.StateOf[struct{}](c.done).ID) }
 
+//go:norace
 func (c *cancelCtx) cancel(err error) {
 	if c.err != nil {
 		return
@@ -87,6 +99,7 @@ func (c *cancelCtx) cancel(err error) {
 	}
 }
 
+//go:norace
 func newCancel(parent Context) *cancelCtx {
 	if parent == nil {
 		panic("cannot create context from nil parent")
@@ -106,6 +119,7 @@ func newCancel(parent Context) *cancelCtx {
 	return c
 }
 
+//go:norace
 func watch(parent Context, c *cancelCtx) {
 	switch vrt.Select(false, vrt.CaseRecv(parent.Done()), vrt.CaseRecv[struct{}](c.done)) {
 	case 0:
@@ -115,8 +129,10 @@ func watch(parent Context, c *cancelCtx) {
 
 type canceler struct{ c *cancelCtx }
 
+//go:norace
 func (k canceler) cancel() { k.c.cancel(Canceled) }
 
+//go:norace
 func WithCancel(parent Context) (Context, CancelFunc) {
 	c := newCancel(parent)
 	return c, canceler{c}.cancel
@@ -124,13 +140,16 @@ func WithCancel(parent Context) (Context, CancelFunc) {
 
 type causeCanceler struct{ c *cancelCtx }
 
+//go:norace
 func (k causeCanceler) cancel(cause error) { k.c.cancel(Canceled) }
 
+//go:norace
 func WithCancelCause(parent Context) (Context, CancelCauseFunc) {
 	c := newCancel(parent)
 	return c, causeCanceler{c}.cancel
 }
 
+//go:norace
 func WithDeadline(parent Context, d time.Time) (Context, CancelFunc) {
 	c := newCancel(parent)
 	if cur, ok := parent.Deadline(); ok && cur.Before(d) {
@@ -150,6 +169,7 @@ func WithDeadline(parent Context, d time.Time) (Context, CancelFunc) {
 	return c, canceler{c}.cancel
 }
 
+//go:norace
 func deadline(tc <-chan time.Time, c *cancelCtx) {
 	switch vrt.Select(false, vrt.CaseRecv(tc), vrt.CaseRecv[struct{}](c.done)) {
 	case 0:
@@ -157,12 +177,15 @@ func deadline(tc <-chan time.Time, c *cancelCtx) {
 	}
 }
 
+//go:norace
 func WithTimeout(parent Context, timeout time.Duration) (Context, CancelFunc) {
 	return WithDeadline(parent, vtime.Now().Add(timeout))
 }
 
+//go:norace
 func WithoutCancel(parent Context) Context { return context.WithoutCancel(parent) }
 
+//go:norace
 func AfterFunc(ctx Context, f func()) (stop func() bool) {
 	stopCh := vrt.MakeChan[struct{}](0)
 	stopped := false
